@@ -451,6 +451,18 @@ func GenWorldCfg(g *Rng, opt GenOpts) (World, map[string]any) {
 			add(gContent{m: map[string]any{"src": "@SRC@src/odd/with space.txt", "dst": "/usr/share/odd/with space.txt"}, refPath: "src/odd/with space.txt", refKind: "content", single: true})
 		}
 	}
+	if x.feat("long_names", 0.15) {
+		// names beyond the classic tar limits (100-byte name, 155-byte prefix)
+		// and non-ASCII names: the archive writers switch to PAX / GNU long
+		// name records, which can carry extra fields
+		long := strings.Repeat("long-name-segment-", 7) + "end.txt" // 133 bytes
+		x.addFile("src/long/"+long, x.sizeSmall(), 0o644)
+		deep := "/usr/share/" + strings.Repeat("deeply-nested-directory-name/", 9) // > 255 bytes
+		add(gContent{m: map[string]any{"src": "@SRC@src/long/" + long, "dst": deep + long}, refPath: "src/long/" + long, refKind: "content", single: true})
+		uni := "\u00fcn\u00efc\u00f6d\u00e9-\u0444\u0430\u0439\u043b.txt"
+		x.addFile("src/long/"+uni, x.sizeSmall(), 0o644)
+		add(gContent{m: map[string]any{"src": "@SRC@src/long/" + uni, "dst": "/usr/share/uni/" + uni}, refPath: "src/long/" + uni, refKind: "content", single: true})
+	}
 	if x.feat("expand", 0.15) {
 		w.Env["VERIF_REL"] = "expanded"
 		x.addFile("src/exp/e.txt", 40, 0o644)
